@@ -22,7 +22,10 @@ def search(rec, direction):
     for tag, e, xp, yp in rec.get("probes", {}).get("fw" if direction == "forward" else "ad", []):
         ref = M0 @ xp
         if np.abs(ref - yp).max(initial=0) > 1e-9 * (1 + np.abs(ref).max(initial=0)):
-            kind = ("Op(c x) != c Op(x) for c = 2**%d" % e) if tag == "scale" else "Op(x) differs for the same x given with an integer dtype"
+            kind = ("Op(c x) != c Op(x) for c = 2**%d" % e) if tag == "scale" else \
+                   "Op(x) evaluated after adjoint calls differs from sum_j x_j Op(e_j) evaluated before them" if tag == "again" else \
+                   "Op(x) for a real-dtype x differs from Op(x) for the same x typed complex" if tag == "realdtype" else \
+                   "Op(x) differs for the same x given with an integer dtype"
             return {"family": rec["family"], "params": rec["params"], "direction": direction, "kind": kind, "probe": tag, "exp": e,
                     "x": [str(t) for t in xp], "observed": [str(t) for t in yp], "expected": [str(t) for t in ref]}
     nprobe = len(rec.get("probes", {}).get("fw" if direction == "forward" else "ad", []))
@@ -62,7 +65,21 @@ def replay(rp):
     f = W.fwd if rp["direction"] == "forward" else W.adj
     n = W.N if rp["direction"] == "forward" else W.M
     cv = lambda L: np.array([complex(t) for t in L])
-    if rp.get("probe") in ("scale", "int64"):
+    if rp.get("probe") == "again":
+        x = cv(rp["x"])
+        x = x if W.cplx else x.real
+        A, B = W.matrices()         # forward columns first, then the adjoint on every unit vector
+        r = np.random.RandomState(0)
+        for _ in range(3):
+            W.adj(r.randint(-3, 4, W.M).astype(float))
+        y = W.fwd(x)
+        bad = np.abs(A @ x - y).max(initial=0) > 1e-9 * (1 + np.abs(y).max(initial=0))
+    elif rp.get("probe") == "realdtype":
+        raw = op.matvec if rp["direction"] == "forward" else op.rmatvec
+        x = cv(rp["x"]).real
+        a, b = np.asarray(raw(x.astype(np.float64))), np.asarray(raw(x.astype(complex)))
+        bad = np.abs(a - b).max(initial=0) > 1e-9 * (1 + np.abs(b).max(initial=0))
+    elif rp.get("probe") in ("scale", "int64"):
         x = cv(rp["x"])
         x = x if W.cplx else x.real
         if rp["probe"] == "scale":
